@@ -777,6 +777,10 @@ func (vals *ValidatorSet) VerifyCommitLightTrusting(chainID string, commit *Comm
 	if trustLevel.Denominator == 0 {
 		return errors.New("trustLevel has zero Denominator")
 	}
+	// the fraction's parts are converted to int64 below
+	if trustLevel.Numerator > math.MaxInt64 || trustLevel.Denominator > math.MaxInt64 {
+		return fmt.Errorf("trustLevel numerator and denominator must not exceed %d", int64(math.MaxInt64))
+	}
 
 	var (
 		talliedVotingPower int64
